@@ -1194,6 +1194,9 @@ class TmpStore:
             raise Unsupported(
                 "Blobs are not supported by the underlying storage %r." %
                 self._storage)
+        if oid not in self.index:
+            # no savepoint holds this blob (any more, after a rollback)
+            return self._storage.loadBlob(oid, serial)
         filename = self._getCleanFilename(oid, serial)
         if not os.path.exists(filename):
             return self._storage.loadBlob(oid, serial)
@@ -1217,8 +1220,11 @@ class TmpStore:
     def _getCleanFilename(self, oid, tid):
         return os.path.join(
             self._getBlobPath(),
-            "{}-{}{}".format(utils.oid_repr(oid), utils.tid_repr(tid),
-                             SAVEPOINT_SUFFIX)
+            # The record position makes the name unique per savepoint, so
+            # that a later savepoint does not overwrite the file an earlier
+            # one (to which we may roll back) refers to.
+            "{}-{}-{}{}".format(utils.oid_repr(oid), utils.tid_repr(tid),
+                                self.index[oid], SAVEPOINT_SUFFIX)
         )
 
     def temporaryDirectory(self):
